@@ -517,6 +517,65 @@ func runSharded(w *gen.Writer, c c21Case, shards []shardInfo, class string, det 
 		}
 	}
 
+	// the same with four streamSearch workers: results arrive in any order; only the oracles apply
+	// (whole files of the unlimited result; per shard the whole shard result or nothing)
+	if len(shards) >= 2 {
+		runtime.GOMAXPROCS(4)
+		for _, l := range c.Limits {
+			o := base
+			o.ShardMaxMatchCount, o.ShardRepoMaxMatchCount, o.TotalMaxMatchCount = l.ShardMax, l.RepoMax, l.TotalMax
+			perShard := make([]*zoekt.SearchResult, len(shards))
+			for i, sh := range shards {
+				oo := o
+				r, err := sh.searcher.Search(context.Background(), q, &oo)
+				if err != nil {
+					panic(err)
+				}
+				perShard[i] = r
+			}
+			for _, streaming := range []bool{false, true} {
+				mu.Lock()
+				order = order[:0]
+				mu.Unlock()
+				oo := o
+				var files []zoekt.FileMatch
+				var stats zoekt.Stats
+				var err error
+				if streaming {
+					var ev collectEvents
+					err = ss.StreamSearch(context.Background(), q, &oo, &ev)
+					files, stats = ev.files, ev.stats
+				} else {
+					var r *zoekt.SearchResult
+					r, err = ss.Search(context.Background(), q, &oo)
+					if r != nil {
+						files, stats = r.Files, r.Stats
+					}
+				}
+				mu.Lock()
+				searched := map[int]bool{}
+				for _, i := range order {
+					searched[i] = true
+				}
+				mu.Unlock()
+				cs := gen.Case{Class: class + "/total-4-workers", Detail: det, Nontrivial: l.TotalMax > 0, Go: "ok"}
+				goV := ""
+				if err != nil {
+					goV = "search-error"
+				} else if stats.Crashes != 0 {
+					goV = "crash"
+				} else {
+					goV = oracle(files, perShard, searched, true)
+				}
+				if goV != "" {
+					cs.Go, cs.Key = "FAIL "+goV, "total:"+goV
+				}
+				w.Emit(cs)
+			}
+		}
+		runtime.GOMAXPROCS(1)
+	}
+
 	// real cancellation: already cancelled, deadline in the past, MaxWallTime, cancel from the first event with files
 	type variant struct {
 		name string
